@@ -699,6 +699,56 @@ def r01_9(chk, P):
             k += 1
     return n
 
+def r01_10(chk, P):
+    chk.rule('R01.10', 'floor curves are read from the packet channel by channel (04-codec 4.3.2: "for each channel i in order from 0 ... '
+             'read the floor"; only the residue vectors are grouped by submap): in every function registered as '
+             'vorbis_func_mapping.inverse, each call through vorbis_func_floor.inverse1 -- the one floor routine that reads packet '
+             'bits -- sits in exactly one loop, that loop runs to the channel count, and the call does not depend on a test of '
+             'chmuxlist.  A loop nest by submap reads the same floors from other bit positions as soon as the channel-to-submap '
+             'list is not non-decreasing, which the bundled encoder never writes')
+    import cfg
+    invs = sorted(P.slots.get(('vorbis_func_mapping', 'inverse'), ()))
+    chk.require(invs, 'vorbis_func_mapping.inverse has no registered function')
+    n = 0
+    for inv in invs:
+        F0 = P.need(inv)
+        fs = [F0] + [P.fn[k_] for k_ in sorted(P.reachable([P.key(F0)])) if k_ in P.fn and P.fn[k_] is not F0 and P.fn[k_].file == F0.file
+                     and P.fn[k_].static and P.fn[k_].entry is not None]
+        for F in fs:
+            calls = [c for c in F.calls() if F.ex[c]['callee'].get('slot') == ['vorbis_func_floor', 'inverse1']]
+            if not calls:
+                continue
+            loops = cfg.loops(F)
+            defs = common.single_defs(F)
+
+            def mentions(e, field, depth=0):
+                for q in F.walk(e):
+                    qn = F.ex[q]
+                    if qn['k'] == 'member' and qn['field'] == field:
+                        return True
+                    if qn['k'] == 'ref' and qn['decl'].get('kind') == 'var' and qn['decl'].get('id') in defs and depth < 2 \
+                            and mentions(defs[qn['decl']['id']], field, depth + 1):
+                        return True
+                return False
+            for i, c in enumerate(sorted(calls, key=lambda x: F.ex[x].get('loc') or [0, 0])):
+                b = F.pos[c][0]
+                enc = [h for h, body in loops.items() if b in body]
+                by_ch = [h for h in enc if (F.blocks[h].get('term') or {}).get('cond') is not None
+                         and mentions(F.blocks[h]['term']['cond'], 'channels')]
+                filt = [cnd for cnd, pol in common.controlling_conditions(F, c) if mentions(cnd, 'chmuxlist')]
+                # a helper that decodes one channel's floor is called from the channel loop of the mapping function
+                if F is not F0 and not enc:
+                    continue
+                ok = len(enc) == 1 and len(by_ch) == 1 and not filt
+                chk.ob('R01.10', F.name, f'floor-read-in-channel-order#{i}', ok, F.where(c),
+                       'one enclosing loop, over the channels; no channel filter' if ok else
+                       f'{len(enc)} enclosing loop(s), {len(by_ch)} of them over the channels' +
+                       (f'; the call depends on `{F.s(filt[0])}`' if filt else '') +
+                       ': the floors are not read in channel order')
+                n += 1
+    return n
+
+
 def run(chk, P):
     chk.rule('R01.1', 'for every specification section with a bit layout the sequence of field widths in the TeX source '
              '(document order, consecutive duplicates collapsed, computed widths as V) is a linearisation of the reader '
@@ -721,6 +771,8 @@ def run(chk, P):
     chk.floor('R01.8', 2)
     r01_9(chk, P)
     chk.floor('R01.9', 2)
+    r01_10(chk, P)
+    chk.floor('R01.10', 1)
     chk.notes.append(f'R01.2 compared {ncon} table constants')
     chk.trusted += ['clang 14 front end and constant evaluator', 'the specification sources doc/*.tex of the repository are the oracle',
                     'width extraction from the TeX text (engine/spec.py) recognises the phrasings used in the pinned documents; '
